@@ -20,6 +20,7 @@ RULE = ("Hypothesis: original (well-formed, 2 channels, any construction route /
         "that mutates message objects in place (transpose, set_channel, scale, iterator edits). Distinct by case digest.")
 RULE = RULE + " Rounds e-g: capacities ending on the final tick with a non-note event there, empty capacity lists, INTERNAL markers among the ops, bars edited before they are copied."
 RULE = RULE + " Round i: pre-copy edits applied after the Track / Composition was built, incl. two different program changes."
+RULE = RULE + " Round j: self-concatenated sources on the Sequence.copy route."
 ASSUMPTIONS = ["an operation that raises on one side ends that side's op list; the other side is still compared"]
 TIERS = {"quick": dict(shards=8, examples=500, alt_ppqn=[480], alt_shards=2),
          "thorough": dict(shards=16, examples=6000, alt_ppqn=[480, 7, 1000], alt_shards=2)}
@@ -48,6 +49,9 @@ def _case(draw):
             # a non-note event on the final tick (together with capacities that end exactly there, see caps_mode)
             last = max(end, spec["pad"] or 0)
             meta.append(draw(st.sampled_from([["ks", last, "D"], ["cc", last, 7, 100], ["pc", last, 5], ["ts", last, 3, 4]])))
+        if route == "seq_copy" and draw(st.integers(0, 3)) == 0:
+            spec["double"] = draw(st.sampled_from(["self", "fresh"]))      # every message object occurs twice in the source
+            spec["post"] = draw(st.sampled_from([None, "read_abs", "refresh"]))
         if i > 0 and draw(st.integers(0, 3)) == 0:
             spec = {"notes": [], "meta": [], "route": "abs_sorted", "pad": None, "post": None}     # a message-less track
         srcs.append(spec)
